@@ -368,6 +368,18 @@ func compare(e *docs.Exp, d jv.V, path string, out *[]string) {
 			}
 			compare(e.Props[k], fv, path+"/"+k, out)
 		}
+		if e.Exact {
+			extra := make([]string, 0)
+			for name := range byTag {
+				if _, ok := e.Props[name]; !ok {
+					extra = append(extra, name)
+				}
+			}
+			sort.Strings(extra)
+			if len(extra) > 0 {
+				bad("the type exposes properties that none of its branches declares: %v", extra)
+			}
+		}
 		if e.HasAddl {
 			if addl == nil {
 				bad("no AdditionalProperties field")
